@@ -155,3 +155,35 @@ def print_parse_value(a, us, d):
     v = UnitValue(a, Units(SYS[us], UnitsDimensions(*d)))
     p = parse_unitvalue(str(v))
     return p.value == v.value and p.units == v.units
+
+
+_FRESH_TEXTS = ["µm2.s-1", "mol/L", "mol.L-1", "nL", "M", "s", "molecule/µm3", "um", "km.h-1", "mmol.min-1"]
+
+
+def _snap(u):
+    return (tuple(u.sys[k] for k in ("space", "time", "quantity")), tuple(u.dim[k] for k in ("space", "time", "quantity")))
+
+
+def parse_fresh(k, m):
+    """reading a text is a pure function of the text: every call returns its own object, and editing one result (exponents or
+    base units, through the public item setters) changes nothing about what the same text - through any entry point - reads as later"""
+    t = _FRESH_TEXTS[k % len(_FRESH_TEXTS)]
+    u1 = parse_units(t)
+    ref = _snap(u1)
+    v1 = parse_unitvalue("2.5 " + t)
+    if m == 0:
+        u1.dim["time"] = u1.dim["time"] + 3
+        v1.units.dim["space"] = 7
+    elif m == 1:
+        u1.sys["space"] = "km" if u1.sys["space"] != "km" else "nm"
+        v1.units.sys["quantity"] = "kmol"
+    else:
+        u1.dim["quantity"] = -4
+        u1.sys["time"] = "h" if u1.sys["time"] != "h" else "fs"
+    u2 = parse_units(t)
+    if u2 is u1 or _snap(u2) != ref:
+        return False
+    if _snap(Units(t)) != ref or _snap(UnitValue(1.0, t).units) != ref:
+        return False
+    v2 = parse_unitvalue("2.5 " + t)
+    return v2.value == 2.5 and _snap(v2.units) == ref and v2.units is not v1.units
